@@ -228,14 +228,28 @@ func c04Calls(letters []int, height int) []rec.Call {
 	return cs
 }
 
-// probe draws a triangle with the given ADJ and judges the rasteriser activity.
+// c04ProbePath is the probe path: one operation of every kind whose rasteriser calls are fixed in number
+// (two lines, an arc with a zero radius — a line when drawn —, a quadratic, a smooth cubic, a
+// close-and-move, a horizontal line): 12 rasteriser calls when drawn, none at all when not.
+func c04ProbePath(d ivg.Destination, adj uint8) {
+	d.StartPath(adj, -10, -10)
+	d.AbsLineTo(10, -10)
+	d.RelLineTo(-10, 20)
+	d.RelArcTo(0, 5, 0.125, true, false, 3, -4)
+	d.RelQuadTo(1, 1, 2, 0)
+	d.RelSmoothCubeTo(1, 1, 2, 2)
+	d.ClosePathRelMoveTo(1, 1)
+	d.RelHLineTo(3)
+	d.ClosePathEndPath()
+}
+
+const c04ProbeCalls = 12 // Reset, MoveTo, 3 LineTo, QuadTo, CubeTo, ClosePath, MoveTo, LineTo, ClosePath, Draw
+
+// probe draws the probe path with the given ADJ and judges the rasteriser activity.
 func (st *c04State) probe(adj uint8, height int, fail func(key, what string)) bool {
 	w := st.w
 	st.ras.ResetLog()
-	st.z.StartPath(adj, -10, -10)
-	st.z.AbsLineTo(10, -10)
-	st.z.RelLineTo(-10, 20)
-	st.z.ClosePathEndPath()
+	c04ProbePath(&st.z, adj)
 	want := st.vm.StartPath(adj, height)
 	calls := st.ras.Calls
 	switch want.Kind {
@@ -250,7 +264,7 @@ func (st *c04State) probe(adj uint8, height int, fail func(key, what string)) bo
 		}
 		return true
 	}
-	// drawn: Reset, MoveTo, LineTo, LineTo, ClosePath, Draw
+	// drawn: see c04ProbePath
 	nReset, nDraw := 0, 0
 	var paint *rec.Paint
 	var sp image.Point
@@ -263,7 +277,7 @@ func (st *c04State) probe(adj uint8, height int, fail func(key, what string)) bo
 			paint, sp = &calls[i].Paint, calls[i].SP
 		}
 	}
-	if nReset != 1 || nDraw != 1 || len(calls) != 6 {
+	if nReset != 1 || nDraw != 1 || len(calls) != c04ProbeCalls {
 		fail("skipped-but-should-draw", fmt.Sprintf("path should be drawn with %v but rasteriser saw %s", want, rec.RCallsString(calls)))
 		return false
 	}
@@ -402,10 +416,7 @@ func (st *c04State) history(cs *c04Case) {
 			calls[i].Apply(&e)
 		}
 		for _, adj := range cs.Probes {
-			e.StartPath(uint8(adj), -10, -10)
-			e.AbsLineTo(10, -10)
-			e.RelLineTo(-10, 20)
-			e.ClosePathEndPath()
+			c04ProbePath(&e, uint8(adj))
 		}
 		bs, err := e.Bytes()
 		if err != nil {
@@ -436,10 +447,7 @@ func (st *c04State) history(cs *c04Case) {
 			calls[i].Apply(&z3)
 		}
 		for _, adj := range cs.Probes {
-			z3.StartPath(uint8(adj), -10, -10)
-			z3.AbsLineTo(10, -10)
-			z3.RelLineTo(-10, 20)
-			z3.ClosePathEndPath()
+			c04ProbePath(&z3, uint8(adj))
 		}
 		lossy := false
 		for i := range calls {
